@@ -504,7 +504,7 @@ func JudgeCluster(sc *ClusterScenario, tr *Trace) ([]pbt.Violation, ClusterStats
 	}
 	sendResolvedOf := func(receiver string, idx int) bool {
 		rc := cfg.ReceiverByName(receiver)
-		return rc != nil && idx < len(rc.Integrations) && rc.Integrations[idx].SendResolved
+		return rc != nil && rc.ByID(idx) != nil && rc.ByID(idx).SendResolved
 	}
 
 	// staleWrite: the root-cause fact of finding F15. A later-positioned instance (wait > 0) wrote a log entry for
@@ -793,7 +793,7 @@ func JudgeCluster(sc *ClusterScenario, tr *Trace) ([]pbt.Violation, ClusterStats
 			}
 			gk := rt.GroupKey(ls)
 			w := maxDur(rt.GroupWait, rt.GroupInterval) + time.Duration(sc.N-1)*pt + deliverySlack
-			for idx := range rc.Integrations {
+			for _, idx := range rc.IDs() {
 				sk := seqKey{gk, rt.Receiver, idx}
 				for _, tau := range append(append([]time.Time{}, tr.StepAt...), tr.End) {
 					t1 := tau.Add(-w)
@@ -833,7 +833,7 @@ func JudgeCluster(sc *ClusterScenario, tr *Trace) ([]pbt.Violation, ClusterStats
 					}
 				}
 				// resolved obligation
-				if !rc.Integrations[idx].SendResolved {
+				if !rc.ByID(idx).SendResolved {
 					continue
 				}
 				for i := 0; i < sc.N; i++ {
@@ -1042,7 +1042,7 @@ func GenClusterScenario(t *rapid.T, healthy bool) ClusterScenario {
 			r := sampled(t, "brcv", "r0", "r1")
 			idx := 0
 			if rc := cfg.ReceiverByName(r); rc != nil && len(rc.Integrations) > 1 {
-				idx = rapid.IntRange(0, len(rc.Integrations)-1).Draw(t, "bidx")
+				idx = rc.IDs()[rapid.IntRange(0, len(rc.Integrations)-1).Draw(t, "bidx")]
 			}
 			st.Behave = &Behave{Receiver: r, Idx: idx, Kind: sampled(t, "bk", "ok", "ok", "recoverable", "hang", "slow"), D: 5}
 		default:
